@@ -8,18 +8,23 @@ mutants.json: [{"name":..., "file":..., "old":..., "new":..., "breaks":[...], "h
 import json, subprocess, sys, os, time
 
 def sh(cmd, **kw):
-    return subprocess.run(cmd, shell=True, capture_output=True, text=True, **kw)
+    kw.setdefault('timeout', 1500)
+    try:
+        return subprocess.run(cmd, shell=True, capture_output=True, text=True, **kw)
+    except subprocess.TimeoutExpired as e:
+        return subprocess.CompletedProcess(cmd, 2, stdout=(e.stdout or b'').decode() if isinstance(e.stdout, bytes) else (e.stdout or ''), stderr='TIMEOUT')
 
 def main():
     args = sys.argv[1:]
     spec = json.load(open(args[0]))
-    only = None; runs = None; tests = False; props_override = None
+    only = None; runs = None; tests = False; props_override = None; json_out = None
     i = 1
     while i < len(args):
         if args[i] == '--only': only = set(args[i+1].split(',')); i += 2
         elif args[i] == '--runs': runs = args[i+1]; i += 2
         elif args[i] == '--tests': tests = True; i += 1
         elif args[i] == '--props': props_override = args[i+1].split(','); i += 2
+        elif args[i] == '--json': json_out = args[i+1]; i += 2
         else: i += 1
     st = sh('git -C /repo status --porcelain')
     if st.stdout.strip():
@@ -42,10 +47,13 @@ def main():
                 open(path, 'w').write(s)
             row = {'name': m['name'], 'results': {}}
             if tests:
-                t = sh('cd /repo && cargo test --workspace --offline 2>&1 | grep -E "^test result|FAILED|failed" | head -20')
+                # a mutant may make the repository's own suite hang (e.g. a blocking send): bound it
+                t = sh('cd /repo && timeout -k 5 180 cargo test --workspace --offline --no-fail-fast 2>&1 | grep -E "^test result|FAILED|failed" | head -40')
                 failed = [l for l in t.stdout.splitlines() if 'FAILED' in l or ('failed' in l and not l.startswith('test result'))]
                 # the two always-failing baseline tests are expected
                 nfail = sum(int(l.split(' failed')[0].split()[-1]) for l in t.stdout.splitlines() if l.startswith('test result'))
+                if not any(l.startswith('test result') for l in t.stdout.splitlines()):
+                    nfail = -1  # hung (timeout) or did not build
                 row['tests_failed'] = nfail
             props = props_override or (m.get('breaks', []) + m.get('holds', []))
             for p in props:
@@ -72,7 +80,13 @@ def main():
             print(f"{mark} {m['name']:<42} {p} expected={exp:<9} got={v:<13} {t:>5}s {clause}")
         if 'tests_failed' in row:
             print(f"    {m['name']}: repo tests failed = {row['tests_failed']} (baseline has 2 always-failing)")
-    sh('find /verif/replays -name "*.json" -newer /verif/tools/mutate.py -delete') if False else None
+    if json_out:
+        rows = []
+        for m, row in results:
+            rows.append({'name': m['name'], 'note': m.get('note', ''), 'breaks': m.get('breaks', []), 'holds': m.get('holds', []),
+                         'results': {p: {'verdict': v, 'clause': c, 'wall_s': t} for p, (v, c, t) in row['results'].items()},
+                         'tests_failed': row.get('tests_failed')})
+        json.dump(rows, open(json_out, 'w'), indent=1)
     sys.exit(0 if ok else 1)
 
 main()
